@@ -42,7 +42,16 @@ pub fn run<W: WorldDriver>(a: usize, start_cap: usize) -> Result<BoundaryStats, 
             Ok(_) => return Err("harness bug: create reported Full".into()),
             Err(m) => {
                 let still = catch(|| samples.iter().all(|s| W::lookup(&mut w, a, LookupPath::AContains, Key::Ent(*s)).is_some())).unwrap_or(false);
-                return Err(format!("create on {} panicked with only {} < 16777216 entities (capacity {}): {}; sampled handles still resolve: {}", name, len, cap, m, still));
+                // C10's part: whatever made it panic, the world must be as it was before the call
+                // (the entity fully absent: len() unchanged, the entity list as long as before)
+                let len_now = catch(|| W::len(&w, a)).unwrap_or(usize::MAX);
+                let listed = catch(|| W::iterate(&mut w, a, IterPath::Entities, None).len()).unwrap_or(usize::MAX);
+                let state = if len_now == len && listed == len && still {
+                    "the world is as before the call".to_string()
+                } else {
+                    format!("state inconsistent after the panic: len() {} and {} listed entities with {} live entities, earlier handles resolve: {}", len_now, listed, len, still)
+                };
+                return Err(format!("create on {} panicked with only {} < 16777216 entities (capacity {}): {}; {}", name, len, cap, m, state));
             }
         };
         len += 1;
